@@ -149,3 +149,116 @@ package jsonrpc
 //@   ensures only_whitespace_consumed: old(rdPos) <= rdPos && (forall i mathint :: old(rdPos) <= i && i < rdPos ==> isWs(streamAt(reader, i)))
 //@   ensures skipped_is_what_was_consumed: result1 == rdPos - old(rdPos)
 //@   ensures batch_iff_first_significant_byte_is_a_bracket: result0 <==> (exists k mathint :: rdPos <= k && k < streamLen(reader) && streamAt(reader, k) == 91 && (forall i mathint :: rdPos <= i && i < k ==> isWs(streamAt(reader, i))))
+
+// ---- a batch waits for its own tasks, and only for those (C11) --------------------------------------
+// The worker pool is shared by every connection and transport of the server: a batch registers each
+// of its tasks with a wait group of its own before handing it to the pool, waits for exactly that
+// group once, after the last task was handed over, and never drains the shared pool (pool.Wait would
+// wait for - and, in conc, close the task channel under - the other connections' requests).
+// Who runs when is outside the model; the bookkeeping calls and their order are not.
+//@ extern func github.com/sourcegraph/conc/pool.(*Pool).Go
+//@   logged as PoolGo
+//@ extern func github.com/sourcegraph/conc/pool.(*Pool).Wait
+//@   logged as PoolWait
+//@ extern func sync.(*WaitGroup).Add
+//@   logged as WGAdd
+//@ extern func sync.(*WaitGroup).Wait
+//@   logged as WGWait
+//@ extern func context.WithCancel
+//@   ensures effectfree(result1)
+//@ extern func bytes.NewBuffer
+//@ extern func encoding/json.NewDecoder
+//@ extern func encoding/json.(*Decoder).UseNumber
+//@ extern func encoding/json.(*Decoder).Decode
+//@ extern func net/http.(Header).Add
+//@ extern func sync.(*Mutex).Lock
+//@ extern func sync.(*Mutex).Unlock
+//@ func (*Server).handleBatchRequest
+//@   props C11
+//@   arith int
+//@   nosafe
+//@   modifies *
+//@   assigns calls_PoolGo, arg_PoolGo_f, calls_PoolWait, calls_WGAdd, arg_WGAdd_delta, calls_WGWait
+//@   callsite sync.Add@*: one_per_task: $1 == 1
+//@   callsite Go@*: registered_before_handed_over: calls_WGAdd - old(calls_WGAdd) == calls_PoolGo - old(calls_PoolGo) + 1 && calls_WGWait == old(calls_WGWait)
+//@   loop 1: invariant every_task_registered: calls_WGAdd - old(calls_WGAdd) == calls_PoolGo - old(calls_PoolGo) && calls_WGWait == old(calls_WGWait) && calls_PoolWait == old(calls_PoolWait)
+//@   ensures waits_once_for_its_own_tasks: calls_WGWait == old(calls_WGWait) + 1 && calls_WGAdd - old(calls_WGAdd) == calls_PoolGo - old(calls_PoolGo)
+//@   ensures shared_pool_not_drained: calls_PoolWait == old(calls_PoolWait)
+
+// ---- the admission gate's slot is given back however the request ends (C11) -------------------------
+// A request that acquired a slot releases it exactly once, and the release is REGISTERED (deferred)
+// before the request is handed to the dispatcher: handlers and validators are not recovered, a panic
+// in one unwinds through ServeHTTP (net/http recovers per connection), and only a deferred release
+// survives that - otherwise maxConcurrent such requests leave the server answering 503 for ever.
+//@ ghost var slotHeld bool
+//@ func (*Gate).Acquire
+//@   trusted
+//@   logged as GateAcquire
+//@   sets slotHeld = (result == nil)
+//@ func (*Gate).Release
+//@   trusted
+//@   logged as GateRelease
+//@ func (*Server).HandleReader
+//@   trusted
+//@   logged as Dispatch
+//@ func (*HTTP).logServerBusy
+//@   trusted
+//@ extern func net/http.(*Request).Context
+//@ extern func context.WithTimeout
+//@   ensures effectfree(result1)
+//@ extern func net/http.MaxBytesReader
+//@ extern func net/http.Error
+//@ extern func net/http.(Header).Set
+//@ extern func net/http.(Header).Get
+//@ extern func net/http.ResponseWriter.Header
+//@ extern func net/http.ResponseWriter.WriteHeader
+//@ extern func net/http.ResponseWriter.Write
+//@ extern func maps.Copy
+//@ extern func strings.Contains
+//@ extern func io.Writer.Write
+//@ extern func github.com/NethermindEth/juno/utils/compression.GzipWriter
+//@   ensures result != nil
+//@ extern func github.com/NethermindEth/juno/utils/compression.(*Writer).Close
+//@ extern func github.com/NethermindEth/juno/utils/compression.(*Writer).Release
+//@ func (*HTTP).ServeHTTP
+//@   props C11
+//@   arith int
+//@   nosafe
+//@   requires h != nil && req != nil
+//@   modifies *
+//@   assigns slotHeld, calls_GateAcquire, arg_GateAcquire_ctx, calls_GateRelease, calls_Dispatch, arg_Dispatch_ctx, arg_Dispatch_reader
+//@   callsite HandleReader@*: release_registered_before_dispatch: h.gate != nil ==> calls_GateAcquire == old(calls_GateAcquire) + 1 && slotHeld && deferred(Release) && calls_GateRelease == old(calls_GateRelease)
+//@   callsite HandleReader@*: ungated_server_takes_no_slot: h.gate == nil ==> calls_GateAcquire == old(calls_GateAcquire)
+//@   callsite Gate.Release@*: only_a_held_slot: slotHeld && calls_GateRelease == old(calls_GateRelease)
+//@   ensures dispatched_at_most_once: calls_Dispatch == old(calls_Dispatch) || calls_Dispatch == old(calls_Dispatch) + 1
+//@   ensures refused_requests_are_not_dispatched: calls_GateAcquire == old(calls_GateAcquire) + 1 && !slotHeld ==> calls_Dispatch == old(calls_Dispatch) && calls_GateRelease == old(calls_GateRelease)
+//@   ensures held_slot_released_once: calls_GateAcquire == old(calls_GateAcquire) + 1 && slotHeld ==> calls_GateRelease == old(calls_GateRelease) + 1
+
+// ---- websocket: a message is read to its end before the next one is asked for (C11) -----------------
+// The dispatcher's decoder stops at the end of the first JSON value (or at a syntax error); what is
+// left of the websocket message has to be drained completely - io.Copy to io.Discard reads to EOF -
+// before conn.Reader is called again, or the leftover payload is parsed as frame headers and the
+// connection (and the answers to the requests that follow on it) is lost.
+//@ extern func github.com/coder/websocket.(*Conn).Reader
+//@   logged as NextMessage
+//@ extern func io.Copy
+//@   logged as DrainToEOF
+//@ extern func io.CopyN
+//@ extern func github.com/coder/websocket.Accept
+//@ extern func github.com/coder/websocket.CloseStatus
+//@ extern func golang.org/x/sync/semaphore.(*Weighted).Acquire
+//@ extern func golang.org/x/sync/semaphore.(*Weighted).Release
+//@ func newWebsocketConn
+//@   trusted
+//@   ensures result != nil && fresh(result)
+//@ func (*Server).HandleReadWriter
+//@   trusted
+//@ func (*Websocket).ServeHTTP
+//@   props C11
+//@   arith int
+//@   nosafe
+//@   modifies *
+//@   assigns calls_NextMessage, arg_NextMessage_ctx, calls_DrainToEOF, arg_DrainToEOF_dst, arg_DrainToEOF_src
+//@   callsite Reader@*: previous_messages_drained: calls_DrainToEOF - old(calls_DrainToEOF) == calls_NextMessage - old(calls_NextMessage)
+//@   callsite io.Copy@*: the_rest_of_this_message_discarded: $0 == io.Discard && $1 == wsc.r
+//@   loop 1: invariant drained_so_far: calls_DrainToEOF - old(calls_DrainToEOF) == calls_NextMessage - old(calls_NextMessage)
